@@ -49,6 +49,10 @@ FEATS_ALL = [
 ]
 
 
+class TooManyHangs(Exception):
+    pass
+
+
 class Ctx:
     def __init__(self, built, prop, meta=False, expd=False):
         self.b = built
@@ -73,10 +77,14 @@ class Ctx:
         """run fn(); returns its value or None; records produced/failed"""
         before = src.count if src is not None else 0
         try:
-            with time_limit(20):
+            with time_limit(8):          # library operations on these grammars take milliseconds
                 v = fn()
         except Exception as e:
             self.failed(op, rep, decider, d, e, (src.count - before) if src is not None else -1)
+            if isinstance(e, HangTimeout):
+                self.hangs = getattr(self, "hangs", 0) + 1
+                if self.hangs >= 4:
+                    raise TooManyHangs()       # recorded four times already; the rest of this grammar would only repeat it
             return None
         if project:
             self.produced(op, rep, decider, d, v)
@@ -94,6 +102,15 @@ def mk_decider(ctx, kind, d, src):
 
 def workload(ctx, R, d, kinds, reps, n_create, n_var):
     """create / map / mutate / crossover with every requested representation under depth limit d"""
+    if getattr(ctx, "hangs", 0) >= 4:
+        return
+    try:
+        _workload(ctx, R, d, kinds, reps, n_create, n_var)
+    except TooManyHangs:
+        pass
+
+
+def _workload(ctx, R, d, kinds, reps, n_create, n_var):
     for kind in kinds:
         src = RecordingSource(NativeRandomSource(R.randint(0, 10 ** 6)))
         before = src.count
@@ -397,6 +414,8 @@ def main():
     if a.tier != "quick":
         n *= 12
     specs += GR.family(R, n, FEATS_ALL)
+    if a.prop == "C03":
+        specs += GR.C03_EXTRA
     jobs = [("grammar", spec) for spec in specs]
     if a.prop in ("C01", "C02", "C11"):
         jobs += [("grammar", spec) for spec in GR.POSTPONED]
